@@ -59,6 +59,15 @@ theorem listing_is_union (lists : List (List Nat)) :
     (∀ n, n ∈ listing lists ↔ ∃ l ∈ lists, n ∈ l) ∧ (listing lists).Nodup ∧ (listing lists).Pairwise (· ≤ ·) :=
   ⟨Chain.listing_mem lists, Chain.listing_nodup lists, Chain.listing_sorted lists⟩
 
+/-- LISTED = FOUND: a name appears in the chain's listing exactly when the file map resolves it (contains_file / read_file find
+    it) — "a name in no archive is not found", and nothing is listed that cannot be looked up -/
+theorem listed_iff_found (lists : List (List Nat)) (n : Nat) :
+    n ∈ listing lists ↔ (mapGet (rebuildMap lists) n).isSome = true := by
+  rw [Chain.listing_mem, Chain.rebuildMap_get, List.findIdx?_isSome, List.any_eq_true]
+  constructor
+  · rintro ⟨l, hl, hn⟩; exact ⟨l, hl, by simpa using hn⟩
+  · rintro ⟨l, hl, hn⟩; exact ⟨l, hl, by simpa using hn⟩
+
 /-- READ THROUGH A PATCH ENTRY: whatever `read_patched_file` returns is either the base itself (no archive holds a patch
     version of the name) or matches the digest and size declared by the HIGHEST-PRIORITY patch version; every archive's
     patch version was read and parsed (none skipped), for any digest function -/
